@@ -214,3 +214,27 @@ def run(ctx):
     ctx.assumptions = ["probing argument table is hand-written per method name; unknown (new) methods get a generic fallback",
                        "the theorem part covers the undirected model; directed / simplicial classes are decided by probing until their models land"]
     return finish(ctx, trusted_base=TRUSTED_COMMON + ["AST translator harness/c18_translate.py (reads the `self.X = frozen` assignments of freeze())"])
+
+
+def replay(ctx, path):
+    import ast
+    import json
+    from ..sm import replay_sm
+    j = json.load(open(path))
+    case = j.get("case", {})
+    if "method" in case or "function" in case:
+        cls = getattr(xgi, case["class"])
+        B = build(cls, ctx.rng)
+        if "function" in case:
+            B.add_node("zz"); B.freeze(); before = structure(B)
+            exc = call_quiet(LIB_INPLACE[case["function"]], B)
+        else:
+            B.freeze(); before = structure(B)
+            exc = call_quiet(getattr(B, case["method"]), *ast.literal_eval(case["args"]), **ast.literal_eval(case["kwargs"]))
+        if structure(B) != before or not isinstance(exc, XGIError):
+            print(f"VIOLATION property=C18 replay={path}")
+            print(f"  reproduced: frozen {case['class']} {case.get('method') or case.get('function')}: changed={structure(B) != before}, raised={type(exc).__name__ if exc else None}")
+            return 1
+        print(f"replay {path}: not reproduced on the current tree")
+        return 0
+    return replay_sm(ctx, MH, "HG", FIELDS, pred_hg, path)
